@@ -114,7 +114,7 @@ def run(tier: str) -> int:
     if ck.driver is not None:
         vals = ["a", 'a"b', "x'y", "&", "<>", "l\r\nm", "", "&amp;", "é ;"]
         # ("s", v): an instance of a str SUBCLASS (user token classes, markupsafe-style strings): plain text like any str
-        ops_pool = ([("p", v) for v in vals] + [("h", v) for v in ("x", "<b>", 'q"', "")] + [("t",), ("n", 7), ("n", 1.5), ("none",), ("f",)]
+        ops_pool = ([("p", v) for v in vals] + [("h", v) for v in ("x", "<b>", 'q"', "", 'a"b', "&")] + [("t",), ("n", 7), ("n", 1.5), ("none",), ("f",)]
                     + [("s", v) for v in ("tok", 'a"b', "x'y", "l\nm", "&<")])
         maxk = 3 if tier == "quick" else 4
         combos = []
@@ -123,8 +123,11 @@ def run(tier: str) -> int:
                 combos += list(itertools.product(ops_pool, repeat=k))
             else:
                 combos += [tuple(rng.choice(ops_pool) for _ in range(k)) for _ in range(ck.budget(1500, 20000))]
-        ck.exhaustive_scopes.append({"scope": "merge shapes: all operand lists of length <= 2 over 18 operand values (plain/HTML/True/number/None/False) x 5 entry points",
+        ck.exhaustive_scopes.append({"scope": "merge shapes: all operand lists of length <= 2 over 20 operand values (plain/HTML/True/number/None/False; four texts both plain and HTML()-marked) x 5 entry points, forwards and then backwards in one process",
                                      "n": len(ops_pool) + len(ops_pool) ** 2, "exhaustive": True})
+        # process history: the same operand lists again in reverse order, so that for every pair of operand lists that
+        # differ only in whether a value is HTML()-marked, each of the two is evaluated after the other once
+        combos += [c for c in reversed(combos) if len(c) <= 2]
         esc_need = sorted({o[1] for c in combos for o in c if o[0] in ("p", "s")})
         esc = dict(zip(esc_need, [subst.ds_(x) for x in ck.driver.run(["spec_escape T " + es(s) for s in esc_need])]))
 
